@@ -253,6 +253,48 @@ def check(rep, F, tier, replay=None):
     arith_unused_rule(rep, F, ["src/builders/", "src/utils.rs"])
     from ruleutil import ord_eq_rule
     ord_eq_rule(rep, F)
+    # ACC-cast: no lossy integer cast on the accounting path
+    import e3_arith as e3_
+    rep.rule("ACC-cast", "no lossy integer cast (narrowing / sign-changing `as`) in any function the builder's accounting reaches (call closure of get_total_input / get_total_output / get_explicit_input / get_explicit_output / get_implicit_input / get_deposit / get_mint_as_values) outside the audited inventory: an amount above 2^63 must not change while it is summed")
+    ACC_CAST_OK = {"Int::as_positive|i128->u64": "only on the is_positive() branch of a value within the Int range (<= 2^64 - 1)"}
+    roots_ = [f for f in F.fns if any(f.endswith("TransactionBuilder::" + n) for n in ("get_total_input", "get_total_output", "get_explicit_input", "get_implicit_input", "get_explicit_output", "get_deposit", "get_mint_as_values"))]
+    if len(roots_) < 6:
+        rep.lost("accounting roots of the TransactionBuilder not found (%d)" % len(roots_))
+    seen_, work_ = set(), [(r, 0) for r in roots_]
+    while work_:
+        x_, d_ = work_.pop()
+        if x_ in seen_ or x_ not in F.fns:
+            continue
+        seen_.add(x_)
+        if d_ >= 8:
+            continue
+        for sub in [x_] + [c for c in F.fns if c.startswith(x_ + "::{closure")]:
+            for c in F.calls(sub):
+                if c.to in F.fns:
+                    work_.append((c.to, d_ + 1))
+    cnt_ = {}
+    n_c = 0
+    for fid_ in seen_:
+        for sub in [fid_] + [c for c in F.fns if c.startswith(fid_ + "::{closure")]:
+            fn_ = F.fns[sub]
+            if F.is_derived(sub) or "/tests/" in fn_["file"]:
+                continue
+            for bb in fn_["bbs"]:
+                if bb["c"]:
+                    continue
+                for st in bb["st"]:
+                    if st[1] == "=" and st[3][0] == "cast" and st[3][1] == "IntToInt":
+                        n_c += 1
+                        if e3_.cast_lossy(st[3][3], st[3][4]):
+                            k_ = "%s|%s->%s" % (F.key(fid_), st[3][3], st[3][4])
+                            cnt_[k_] = cnt_.get(k_, 0) + 1
+    rep.inst("ACC-cast", max(n_c, 1))
+    for k_, n_ in sorted(cnt_.items()):
+        if k_ in ACC_CAST_OK and n_ <= 1:
+            rep.allow("ACC-cast", n_)
+            continue
+        rep.violation("ACC-cast", k_, "lossy integer cast %s on the builder's accounting path: a burn above 2^63 is valued as 2^64 minus the amount, the change calculation puts the difference into the change output and reports success" % k_, {})
+    rep.floor("functions on the accounting path", 30, len(seen_))
     # KEYED-store: what a sub-builder sums is what it emits
     rep.rule("KEYED-store", "every sub-builder whose entries are emitted into a key-unique collection (withdrawals / votes maps, input / certificate / proposal sets, one mint entry per policy) stores them in a map keyed by that same key: the value accessors the balance uses (get_total_withdrawals, total_value, deposits, refunds) sum every stored entry, the emitted collection keeps one entry per key - a second add for the same key must replace, not accumulate")
     KEYED = {
